@@ -201,6 +201,71 @@ pub fn run(ctx: &mut Ctx) {
         }
     }
 
+    // ---- 2b. structured large graphs (depth / fan sizes across the inline limit of 30) in several supply orders
+    {
+        let family = super::common::large_family();
+        ctx.space("large-structured/builder+binary+obo", &format!("{} large shapes (chains 31..100, fans 29..40, binary tree, ladder, total order, joined chains; both id directions) x 5 supply orders via Builder, x asc/desc record order via binary v3 and hp.obo", family.len()));
+        for (base, what) in &family {
+            if !ctx.take() {
+                continue;
+            }
+            ctx.state();
+            ctx.nontrivial();
+            let r = RefOnt::derive(base);
+            let n = base.terms.len();
+            for (order, oname) in super::common::large_orders(n) {
+                let mut f = Facts { terms: apply_perm(&base.terms, &order), ..base.clone() };
+                ctx.transitions(f.n_steps());
+                match drive::build(&f, Mode::Minimal) {
+                    Err(e) => {
+                        ctx.exec();
+                        ctx.violation("Builder", "[builder] construction fails on valid facts", json!({"shape": what, "order": oname, "observed": e}));
+                    }
+                    Ok(ont) => {
+                        let case = || json!({"shape": what, "term_order": oname, "n_terms": n});
+                        check_against_model(ctx, &ont, &r, Mode::Minimal, "builder", &case);
+                        check_pairs(ctx, &ont, &r, "builder", &case);
+                    }
+                }
+                if oname.starts_with("asc") || oname.starts_with("desc") {
+                    // links reversed as well
+                    f.edges.reverse();
+                    ctx.transitions(f.n_steps());
+                    if let Ok(ont) = drive::build(&f, Mode::Minimal) {
+                        let case = || json!({"shape": what, "term_order": oname, "links": "reversed", "n_terms": n});
+                        check_against_model(ctx, &ont, &r, Mode::Minimal, "builder", &case);
+                    }
+                    f.edges.reverse();
+                    // binary v3 and obo in this term order
+                    let bytes = encode::encode(&f, &EncOpts::v(3));
+                    let case = || json!({"shape": what, "record_order": oname, "n_terms": n});
+                    ctx.transitions(f.n_steps());
+                    match drive::from_bytes(&bytes) {
+                        Ok(Ok(ont)) => {
+                            check_against_model(ctx, &ont, &r, Mode::Defaults, "binary v3", &case);
+                        }
+                        other => {
+                            ctx.exec();
+                            ctx.violation("Ontology::from_bytes", "[binary v3] rejects or panics on a file laid out as documented", json!({"case": case(), "observed": format!("{:?}", other.map(|r| r.map(|_| ())))}));
+                        }
+                    }
+                    ctx.transitions(f.n_steps());
+                    match jax::load(&jax::render(&f, &JaxOpts::default()), false) {
+                        Ok(Ok(ont)) => {
+                            check_against_model(ctx, &ont, &r, Mode::Defaults, "obo", &case);
+                        }
+                        other => {
+                            ctx.exec();
+                            ctx.violation("Ontology::from_standard", "[obo] rejects or panics on valid JAX files", json!({"case": case(), "observed": format!("{:?}", other.map(|r| r.map(|_| ())))}));
+                        }
+                    }
+                }
+            }
+            ctx.sample(|| json!({"shape": what, "n_terms": n, "orders": 5}));
+        }
+        jax::cleanup();
+    }
+
     // ---- 3. binary v1/v2/v3 over {1,118,+extras}: all term-record orders, all parent-record orders, link orders
     let nb = if thorough { 5 } else { 4 };
     {
